@@ -271,10 +271,16 @@ def memo_key_rule(S, rep, pid):
     equal argument of another precision computed: the result depends on the history of the process."""
     import ast
     seen = set()
+    local = []
     for fn, typed, where in S.I.memoised:
         if id(fn) in seen:
             continue
         seen.add(id(fn))
+        if "." in fn.qualname and fn.cls is None:
+            # defined inside a function: the memo lives as long as that call's closure, not the process; whether two
+            # equal arguments of different type can meet in it is not decided by this rule
+            local.append(fn.qualname)
+            continue
         a = fn.node.args
         params = {x.arg for x in a.posonlyargs + a.args + a.kwonlyargs}
         bad = []
@@ -291,3 +297,5 @@ def memo_key_rule(S, rep, pid):
                "earlier call's result" % (where, ", ".join(sorted(set(bad)))) if not ok else "key (==/hash of the arguments%s) determines the result" % (", typed" if typed else ""),
                key="%s.memo|%s|%s" % (pid, fn.qualname, sorted(set(bad))), nontrivial=False)
     rep.note("memoised_functions", len(seen))
+    if local:
+        rep.note("memoised_local_functions_not_decided", sorted(local))
